@@ -1,5 +1,7 @@
 import TTV.Model.Suite
 import TTV.Spec.C19
+import TTV.Lemmas.SuiteUtilSkel
+import TTV.Generated.SuiteSrc
 /-! # C19 — suite utilities preserve the test set
 
 Property theorems (kept apart from the model).  All statements are for **every** tree (any depth and
@@ -404,5 +406,49 @@ theorem C19_load_list (i : Input) :
 example : hasDup (iterate (.suite .plain [.case 1, .suite .custom [.case 1]])) = true := by decide
 example : ∃ id, get? (.suite .plain [.case 3, .suite .custom [.case 2]]) [1, 0] = some (.case id) := ⟨2, by simp [get?]⟩
 example : (iterate (.suite .plain [.case 3, .suite .custom [.case 2]])).Nodup := by decide
+
+/-! ## tie to the source
+`TTV.Generated.SuiteSrc` is produced by `harness/pysuite2lean.py` from `testtools/testsuite.py` and `testtools/run.py` on every
+run; `TTV.SuiteUtilSkel.*I` interpret that data over the tree model. -/
+
+/-- the model's `iterate` is the interpretation of `iterate_tests` as found in the source -/
+theorem C19_src_iterate (t : T) : SuiteUtilSkel.iterateI Generated.SuiteSrc.iterateTests t = iterate t := by
+  have e : Generated.SuiteSrc.iterateTests = SuiteUtilSkel.refIter := by decide
+  rw [e]; exact SuiteUtilSkel.iterateI_ref t
+
+/-- the model's `filterIds` is the interpretation of the cases of `filter_by_ids` as found in the source, in their order:
+own `filter_by_ids` method → delegate; has `id` → keep the case or put a NEW empty `unittest.TestSuite()` in its place;
+`TestSuite` → children filtered in place; then `return` the object -/
+theorem C19_src_filter (S : Nat → Bool) (t : T) : SuiteUtilSkel.filterI Generated.SuiteSrc.filterByIds S t = filterIds S t := by
+  have e : Generated.SuiteSrc.filterByIds = SuiteUtilSkel.refFilter := by decide
+  rw [e]; exact SuiteUtilSkel.filterI_ref S t
+
+/-- the model's `flatten` is the interpretation of `_flatten_tests` as found in the source: a case is one item; a plain suite
+(or the outer one when asked) is unpacked recursively; any other suite is one item whose key is taken BEFORE its `sort_tests`
+is called -/
+theorem C19_src_flatten (outer : Bool) (t : T) :
+    SuiteUtilSkel.flattenI Generated.SuiteSrc.flattenTests outer t = flatten outer t := by
+  have e : Generated.SuiteSrc.flattenTests = SuiteUtilSkel.refFlatten := by decide
+  rw [e]; exact SuiteUtilSkel.flattenI_ref outer t
+
+/-- the model's `sortedTests` is the interpretation of the steps of `sorted_tests` as found in the source: duplicate check over
+`iterate_tests` of the whole argument (raising `ValueError`), flatten, stable sort by `(id is not None, id)`, wrap in a plain suite -/
+theorem C19_src_sorted (t : T) :
+    SuiteUtilSkel.sortedI Generated.SuiteSrc.iterateTests Generated.SuiteSrc.flattenTests t Generated.SuiteSrc.sortedTests none
+      = (match sortedTests t with | none => .valueError | some r => .ok r) := by
+  have e1 : Generated.SuiteSrc.iterateTests = SuiteUtilSkel.refIter := by decide
+  have e2 : Generated.SuiteSrc.flattenTests = SuiteUtilSkel.refFlatten := by decide
+  have e3 : Generated.SuiteSrc.sortedTests = SuiteUtilSkel.refSorted := by decide
+  rw [e1, e2, e3]; exact SuiteUtilSkel.sortedI_ref t
+
+/-- `--load-list`: between argument parsing and running, `TestProgram.__init__` reads the ids and ASSIGNS
+`self.test = filter_by_ids(self.test, ids)`; the tests run are those of the model's `loaded` -/
+theorem C19_src_load_list (i : Input) :
+    SuiteUtilSkel.loadedI Generated.SuiteSrc.loadList Generated.SuiteSrc.iterateTests Generated.SuiteSrc.filterByIds
+        (fun x => i.ids.contains x) i.tree = some (model i).loaded := by
+  have e1 : Generated.SuiteSrc.iterateTests = SuiteUtilSkel.refIter := by decide
+  have e2 : Generated.SuiteSrc.filterByIds = SuiteUtilSkel.refFilter := by decide
+  have e3 : Generated.SuiteSrc.loadList = SuiteUtilSkel.refLoadList := by decide
+  rw [e1, e2, e3]; exact SuiteUtilSkel.loadedI_ref _ i.tree
 
 end TTV.Props.C19
